@@ -247,7 +247,7 @@ Section StepFrozen.
   Lemma step_stepped s r : stepped s (step origin s r).
   Proof.
     pose proof (stepped_refl s) as S0.
-    destruct r as [pid ppid tid ptid ts | pid tid ts | pid tid name ex ts | pid tid ts | pid tid]; cbn [step].
+    destruct r as [pid ppid tid ptid ts | pid tid ts | pid tid name ex ts | pid tid ts | pid tid | pid tid]; cbn [step].
     - destruct (get_by_pid s ppid) as [s1 parent] eqn:E1. destruct (rel_get_by_pid s s ppid s1 parent S0 E1) as [S1 [Lt Lp]].
       destruct (negb (pid =? ppid)); [apply rel_get_new_process; exact S1|].
       destruct (get_thread_by_tid s1 ppid parent ptid) as [[s2 parent'] pt] eqn:E2.
@@ -291,6 +291,10 @@ Section StepFrozen.
       + destruct (tid =? pid); exact Lp2.
     - destruct (get_by_pid s pid) as [s1 p] eqn:E1. destruct (rel_get_by_pid s s pid s1 p S0 E1) as [S1 [Lt Lp]].
       destruct (cur_time s =? origin); [exact S1|].
+      destruct (get_thread_by_tid s1 pid p tid) as [[s2 p2] t] eqn:E2.
+      destruct (rel_get_thread_by_tid s s1 pid p tid s2 p2 t S1 Lt Lp E2) as [S2 _]. exact S2.
+    - destruct (tid =? 0); [exact S0|].
+      destruct (get_by_pid s pid) as [s1 p] eqn:E1. destruct (rel_get_by_pid s s pid s1 p S0 E1) as [S1 [Lt Lp]].
       destruct (get_thread_by_tid s1 pid p tid) as [[s2 p2] t] eqn:E2.
       destruct (rel_get_thread_by_tid s s1 pid p tid s2 p2 t S1 Lt Lp E2) as [S2 _]. exact S2.
   Qed.
